@@ -361,6 +361,11 @@ def oracle_c03(case, out):
         asked = [(k, " head=1" in l) for (k, l) in ct.requests]
         data = b"".join(ct.wires)
         if o.get("resp") == "chunked":
+            # (see below) with both an expect-continue handler and a chunk handler registered, a chunked Expect request is
+            # answered without a request event of its own: the numbering by request events does not apply
+            if str(o.get("conth")) in ("1", "2") and str(o.get("chunkh")) == "1" and \
+                    any(k == "continue" and " chunked=1" in l for (_, k, l) in ct.events):
+                continue
             got = [int(x) for x in re.findall(rb"\r\n2\r\na(\d)\r\n", data)]
             gotb = [int(x) for x in re.findall(rb"\r\n2\r\nb(\d)\r\n", data)]
             if any(k > 9 for (k, _) in asked):
